@@ -764,7 +764,6 @@ func (R *Run) ruleSessionAccessRefresh() {
 	R.floor("session-access-refresh", 1)
 }
 
-
 // soleStoreAny: the one value stored whole into the local variable (whatever else is done with the variable); nil
 // when it is stored into more than once.
 func soleStoreAny(a *ssa.Alloc) ssa.Value {
@@ -779,7 +778,6 @@ func soleStoreAny(a *ssa.Alloc) ssa.Value {
 	}
 	return src
 }
-
 
 // pristineCopy: the local variable is given its value once and is afterwards only read (loads, IsSet on it, indexed
 // reads) — it still equals what it was copied from.
